@@ -18,6 +18,16 @@ def job(arg):
         # boundscheck=False / wraparound=False in the real build: an out-of-range index is silent memory corruption there
         return {'group': cfg['group'], 'n': 1, 'unsat': 0, 'sat': [], 'unknown': [], 'solver_s': 0, 'queries': 0, 'samples': [],
                 'extra': {}, 'oob': str(e), 'cfg': cfg}
+    except TypeError as e:
+        import traceback
+        if "'MemView'" in str(e):
+            # arithmetic on a typed memoryview returned by a compiled kernel: a TypeError in the real build as well
+            tb = traceback.extract_tb(e.__traceback__)
+            where = next(('%s:%d %s' % (f.filename, f.lineno, f.line) for f in reversed(tb) if '/compmech/' in f.filename), '')
+            return {'group': cfg['group'], 'n': 1, 'unsat': 0, 'sat': [], 'unknown': [], 'solver_s': 0, 'queries': 0, 'samples': [],
+                    'extra': {}, 'memview': '%s (%s)' % (e, where), 'cfg': cfg}
+        return {'group': cfg['group'], 'n': 0, 'unsat': 0, 'sat': [], 'unknown': [], 'solver_s': 0, 'queries': 0, 'samples': [],
+                'extra': {}, 'error': '%s: %s\n%s' % (type(e).__name__, e, traceback.format_exc()[-800:]), 'cfg': cfg}
     except Exception as e:
         import traceback
         return {'group': cfg['group'], 'n': 0, 'unsat': 0, 'sat': [], 'unknown': [], 'solver_s': 0, 'queries': 0, 'samples': [],
@@ -64,7 +74,7 @@ def concrete_replay(build, cfg, model_values):
     return bad, info
 
 
-def handle(run, results, build, what='entries differ from the oracle'):
+def handle(run, results, build, what='entries differ from the oracle', signature=None):
     for res in results:
         if res.get('error'):
             run.harness_error('%s %s: %s' % (res['group'], res['cfg'], res['error'][:600]))
@@ -87,6 +97,19 @@ def handle(run, results, build, what='entries differ from the oracle'):
             else:
                 run.harness_error('out-of-bounds access of %s did not reproduce in the exact replay: %s' % (res['group'], res['oob']))
             continue
+        if res.get('memview'):
+            # reproduced against the compiled build by the property module's `real_typeerror(cfg)` before it is reported
+            run.obligations += 1
+            cfg = res['cfg']
+            hook = getattr(importlib.import_module(build.__module__), 'real_typeerror', None)
+            real = hook(cfg) if hook else None
+            if real:
+                run.violation('%s/%s/typed-memoryview-arithmetic' % (res['group'], cfg.get('variant', cfg.get('rel', '-'))),
+                              '%s: the call raises instead of returning the result -- %s; on the compiled build: %s' % (res['group'], res['memview'], real),
+                              {'cfg': cfg, 'symbolic_run': res['memview'], 'compiled_build': real})
+            else:
+                run.harness_error('typed-memoryview TypeError of %s did not reproduce on the compiled build: %s' % (res['group'], res['memview']))
+            continue
         sats = run.absorb_job(res)
         if 'canary_sat' in res:
             run.canary(res['canary_sat'], res['group'])
@@ -102,8 +125,8 @@ def handle(run, results, build, what='entries differ from the oracle'):
         try:
             try:
                 bad, info = concrete_replay(build, cfg, sats[0]['model'])
-            except (ZeroDivisionError, ArithmeticError):
-                bad = []        # the solver's point is singular for the exact run (a denominator vanishes there)
+            except Exception:
+                bad = []        # the solver's point is singular for the exact run (a denominator vanishes / an attribute is 0 there)
             if not bad:
                 # the solver's point may sit on a special locus for the exact atoms: try a generic seeded point
                 bad, info = concrete_replay(build, dict(cfg, seed=run.seed + 1), {})
@@ -126,4 +149,5 @@ def handle(run, results, build, what='entries differ from the oracle'):
                 key += '/differs-from-recorded-finding'
             run.violation(key, ('%s m=%d n=%d: %d ' + what + ', e.g. %s impl=%.6g oracle=%.6g') % (
                 res['group'], cfg['m'], cfg['n'], len(fbad), fbad[0][0], fbad[0][1], fbad[0][2]),
-                {'cfg': cfg, 'inputs': info['values'], 'differing_entries': fbad[:10], 'n_sat': len(names)})
+                {'cfg': cfg, 'inputs': info['values'], 'differing_entries': fbad[:10], 'n_sat': len(names)},
+                **({'signature': signature(cfg, fam, sorted(names))} if signature else {}))
